@@ -35,6 +35,7 @@ def run(ctx):
     c08.rule_partition(F, R)   # C17.partition: spans and expression are shifted by the same offset
     from . import parsecat
     parsecat.report(F, R, "C17.tokens", ctx.tier, ("span", "expression"), 12000)
+    parsecat.report_partition(F, R, "C08.text")   # spans of a partitioned glob, from real parser annotations
     if "all" in ctx.configs():
         rule_miette(ctx.facts("all"), R)
 
